@@ -73,6 +73,15 @@ func genResume(s *src, o *out) {
 	o.raw("Definition resume_v3_truncate : bool := %s.\n", same("trzszTransfer.recvFileNameV3", 1))
 	o.raw("Definition resume_v2_truncate : bool := %s.\n", same("trzszTransfer.recvFileName", 2))
 
+	// recvPrefixHash: the guard on the peer-chosen step, right after it is computed and before
+	// anything is allocated
+	rp := s.text(s.fn("trzszTransfer.recvPrefixHash").Body)
+	if !strings.Contains(rp, "step := hash.Step - matchStep") || !strings.Contains(rp, "buffer := make([]byte, step)") {
+		die("recvPrefixHash no longer computes `step := hash.Step - matchStep` / allocates `make([]byte, step)`")
+	}
+	guard := strings.Contains(rp, "step := hash.Step - matchStep if step <= 0 || step > kPrefixHashStep { return simpleTrzszError(")
+	o.raw("Definition resume_step_guard : bool := %v.\n", guard)
+
 	// doCreateFile: O_TRUNC exactly when truncate
 	txt := s.text(s.fn("trzszTransfer.doCreateFile").Body)
 	if !strings.Contains(txt, "flag := os.O_RDWR | os.O_CREATE if truncate { flag |= os.O_TRUNC }") {
